@@ -26,20 +26,42 @@ import props  # noqa: E402
 ENV = dict(os.environ, CARGO_NET_OFFLINE="true", CARGO_TERM_COLOR="never")
 
 
+def _watchdog(pgid, limit_kb, stop, killed):
+    """kill any cbmc process of our process group whose resident set exceeds the cap (ulimit -v would also hit kani-driver,
+    which keeps every check of every harness in memory for --export-json and died of it at ~120 harnesses)"""
+    while not stop.is_set():
+        try:
+            out = subprocess.run(["ps", "-eo", "pid,pgid,rss,comm"], capture_output=True, text=True).stdout
+            for line in out.splitlines()[1:]:
+                f = line.split(None, 3)
+                if len(f) == 4 and f[1] == str(pgid) and f[3].strip().startswith("cbmc") and int(f[2]) > limit_kb:
+                    try:
+                        os.kill(int(f[0]), 9)
+                        killed.append((int(f[0]), int(f[2])))
+                    except ProcessLookupError:
+                        pass
+        except Exception:
+            pass
+        stop.wait(2.0)
+
+
 def sh(cmd, log, timeout=None, mem_gb=None, stack_unlimited=False, cwd=HARNESS):
-    """run through bash so ulimit applies to cargo, kani-compiler and every cbmc child"""
+    """run through bash in its own process group; cbmc children are capped at mem_gb of RESIDENT memory by a watchdog"""
+    import threading
     pre = []
-    if mem_gb:
-        pre.append("ulimit -v %d" % (mem_gb * 1024 * 1024))
     if stack_unlimited:
         pre.append("ulimit -s unlimited")
     line = "; ".join(pre + [" ".join(cmd)])
     t0 = time.time()
     with open(log, "w") as f:
-        f.write("$ " + line + "\n")
+        f.write("$ " + line + ("   # cbmc RSS cap %s GB" % mem_gb if mem_gb else "") + "\n")
         f.flush()
         # own process group, so that a timeout kills cargo, kani-driver, cbmc and test binaries alike
         p = subprocess.Popen(["bash", "-c", line], cwd=cwd, env=ENV, stdout=f, stderr=subprocess.STDOUT, start_new_session=True)
+        stop, killed = threading.Event(), []
+        if mem_gb:
+            th = threading.Thread(target=_watchdog, args=(p.pid, int(mem_gb * 1024 * 1024), stop, killed), daemon=True)
+            th.start()
         try:
             rc = p.wait(timeout=timeout)
         except subprocess.TimeoutExpired:
@@ -49,6 +71,9 @@ def sh(cmd, log, timeout=None, mem_gb=None, stack_unlimited=False, cwd=HARNESS):
             except ProcessLookupError:
                 pass
             p.wait()
+        stop.set()
+        if killed:
+            f.write("\n[watchdog] killed cbmc processes above the %s GB resident cap: %s\n" % (mem_gb, killed))
     return rc, time.time() - t0
 
 
@@ -96,13 +121,37 @@ def repo_functions(checks):
 
 
 def run_kani(prop, run, tier, idx, workdir):
-    """one cargo-kani invocation; returns list of per-harness result dicts + meta"""
-    tdir = BUILD / ("target-%s" % run.get("cfg", "nostd"))  # shared by all properties: dependencies are built once per configuration
-    out_json = workdir / ("run%d.json" % idx)
-    log = workdir / ("run%d.log" % idx)
+    """one run of the table = one or more cargo-kani invocations (batches of at most BATCH harnesses: kani-driver keeps every
+    check of every harness in memory for --export-json and was measured to die of its own memory limit at ~120 harnesses)"""
     filters = run["filters"][tier]
     if not filters:
         return [], {"skipped": True}
+    expanded = props.names(filters)
+    BATCH = 100000  # batching disabled: the memory cap is now enforced per cbmc process by an RSS watchdog (see sh()), not by ulimit -v on the whole tree
+    if len(expanded) <= BATCH:
+        return run_kani_batch(prop, run, tier, "%d" % idx, workdir, filters)
+    all_res, metas, seen = [], [], set()
+    for b in range(0, len(expanded), BATCH):
+        res, meta = run_kani_batch(prop, run, tier, "%d_%d" % (idx, b // BATCH), workdir, expanded[b:b + BATCH])
+        metas.append(meta)
+        if res is None:
+            return None, meta
+        for r in res:
+            key = r["harness"]
+            if key not in seen:  # a name that is a prefix of another one matches in two batches
+                seen.add(key)
+                all_res.append(r)
+    meta = dict(metas[0])
+    meta["cmd"] = metas[0].get("cmd", "") + "  (+%d more batches of <= %d harnesses)" % (len(metas) - 1, BATCH)
+    meta["wall_s"] = round(sum(m.get("wall_s", 0) for m in metas), 1)
+    meta["n_harnesses"] = len(all_res)
+    return all_res, meta
+
+
+def run_kani_batch(prop, run, tier, idx, workdir, filters):
+    tdir = BUILD / ("target-%s" % run.get("cfg", "nostd"))  # shared by all properties: dependencies are built once per configuration
+    out_json = workdir / ("run%s.json" % idx)
+    log = workdir / ("run%s.log" % idx)
     jobs = run.get("jobs", 12)
     cmd = kani_cmd(run, filters, tdir, ["-j", str(jobs), "--output-format", "terse", "-Z", "unstable-options",
                                         "--export-json", str(out_json), "--harness-timeout", "%ds" % run.get("harness_timeout", 600)])
